@@ -106,7 +106,10 @@ def run_tlc(
                 fp.write(cfg_text)
         else:
             cfg_path = os.path.join(work, cfg_file or (module + '.cfg'))
-        cmd = ['java', '-XX:+UseParallelGC', '-Xmx6g']
+        # TLC creates a scratch directory under java.io.tmpdir on every start:
+        # keep it inside the work directory, which is removed afterwards
+        cmd = ['java', '-XX:+UseParallelGC', '-Xmx6g',
+               f'-Djava.io.tmpdir={work}']
         cmd += java_opts or []
         cmd += ['-cp', f'{JAR}:{DEPS}', 'tlc2.TLC',
                 '-workers', str(workers), '-metadir',
